@@ -362,6 +362,19 @@ func Relax(cat string) string {
 				l = "check " + l[k:]
 			}
 		}
+		// A UNIQUE constraint and a unique index over the same columns are the same thing to Atlas
+		// (it cannot create the former on an existing table and restores it as the latter).
+		if strings.HasPrefix(l, "index ") && strings.Contains(l, " unique=1 ") && strings.HasSuffix(l, " where=") {
+			if k := strings.Index(l, " parts="); k >= 0 {
+				rest := l[k:]
+				if d := strings.Index(rest, " def="); d >= 0 {
+					rest = rest[:d]
+				}
+				if !strings.Contains(rest, "<expr>") && !strings.Contains(rest, "/1") {
+					l = "index <unique> unique=1" + rest
+				}
+			}
+		}
 		if strings.HasPrefix(l, "options ") {
 			if k := strings.Index(l, " autoincrement="); k >= 0 {
 				l = l[:k]
